@@ -70,7 +70,7 @@ pub fn enumerate_small(maxlen: usize) -> Box<dyn Iterator<Item = Vec<u32>> + Sen
 }
 
 pub fn decode_random(src: &mut Source) -> Box<dyn Case> {
-    let lang = gen_lang(src);
+    let lang = gen_lang_ext(src);
     let text = match src.weighted(&[4, 3, 2, 1]) {
         0 => gen_adversarial_text(src, lang, 40),
         1 => {
